@@ -157,8 +157,13 @@ def watermark(ctx, drv):
                     ctx.fail('watermark-not-followed', dict(scen, manifest=p), f'size {size} watermark {wm} compressed {compressed}')
                 # exactly one file per logical Manifest
                 # (a second file for the same logical Manifest that was there BEFORE the update is prior state, not a failed rename)
-                twins = [q for q in after if q != p and q not in before and (q == logical or any(q == logical + s for s in FORMATS[1:]))]
-                if twins:
+                def same_logical(q):
+                    return q == logical or any(q == logical + s for s in FORMATS[1:])
+                prior = [q for q in before if same_logical(q)]
+                twins = [q for q in after if q != p and same_logical(q)]
+                # (several files for this logical Manifest BEFORE the update are prior state - the territory of finding F8 -,
+                # not a rename that left its old file behind)
+                if twins and len(prior) <= 1:
                     ctx.fail('two-files-for-one-manifest', dict(scen, manifest=p), str(twins))
             if top == 'Manifest' or not os.path.exists(os.path.join(root, 'Manifest.gz')):
                 pass
